@@ -5,7 +5,7 @@
 From Coq Require Import ZArith NArith Reals List String Bool.
 From Flocq Require Import Core BinarySingleNaN.
 From SV Require Import Num.Mod360 Num.Mod360Proofs Num.AngleSites Num.AngleSitesProofs
-                       Num.Dec6 Num.Dec6Proofs Num.Dec6CarveProofs Num.VecText Num.VecTextProofs SM.FrozenOps SM.FrozenOpsProofs.
+                       Num.Dec6 Num.Dec6Proofs Num.Dec6CarveProofs Num.VecText Num.VecTextProofs SM.FrozenOps SM.FrozenOpsProofs SM.FrozenCopy SM.FrozenCopyProofs.
 Import ListNotations.
 
 (** ------------------------------------------------------------------ (a) range *)
@@ -58,6 +58,41 @@ Theorem c05_frozen_stable_refuted :
   FrozenOps.run nat bad_table (({| meth := "__matmul__"; recv := 0%nat; args := (0%nat :: nil) |}, fun _ : nat => 1%nat, nil) :: nil)
     (("FrozenMatrix"%string, 0%nat) :: nil) = (("FrozenMatrix"%string, 1%nat) :: nil).
 Proof. exact frozen_stable_refuted. Qed.
+
+(** Copy independence WITH aliasing.  The state is a heap of objects; [src] is an object, [m] one of copy / __copy__ /
+    __deepcopy__ / __reduce__ (pickle) / freeze / thaw that its class has.  For every census and result table read
+    from the source that pass the three checks: the call writes nothing; its result is a new object or — only for a
+    frozen class — [src] itself; whatever public calls follow, operating on the result never changes the source (1)
+    and operating on the source never changes the result (2). *)
+Theorem c05_copy_independent_alias : forall (V : Type) table carve results,
+  table_ok table carve = true -> copy_results_ok results = true -> no_copy_events table = true ->
+  forall st src c v m nv newobj,
+    nth_error st src = Some (c, v) -> copylike m = true -> has results c m = true ->
+    let k := kind_of results c m in
+    let o := {| meth := m; recv := src; args := [] |} in
+    let st' := FrozenOps.step V table st (o, nv, result_alloc k newobj) in
+    let dst := result_obj k st src in
+    (k = RFresh \/ (k = RSelf /\ frozen_class c = true)) /\
+    nth_error st' src = Some (c, v) /\
+    (k = RFresh -> nth_error st' dst = Some newobj /\ dst <> src) /\
+    (forall h, good_history V table carve h st' -> Forall (fun x => recv (fst (fst x)) = dst \/ recv (fst (fst x)) <> src) h ->
+       nth_error (FrozenOps.run V table h st') src = Some (c, v)) /\
+    (forall h r, good_history V table carve h st' -> nth_error st' dst = Some r ->
+       Forall (fun x => recv (fst (fst x)) = src \/ recv (fst (fst x)) <> dst) h ->
+       nth_error (FrozenOps.run V table h st') dst = Some r).
+Proof. intros V table carve results T R N. exact (copy_independent_alias V table carve results T R N). Qed.
+
+(** necessary: with `Angle.copy` returning the receiver the check of the result table fails and multiplying the
+    "copy" changes the source *)
+Theorem c05_copy_alias_refuted :
+  copy_results_ok bad_results_table = false /\
+  let k := kind_of bad_results_table "Angle" "copy" in
+  let st := [("Angle"%string, 5%nat)] in
+  let st' := FrozenOps.step nat imul_table st ({| meth := "copy"; recv := 0%nat; args := [] |}, fun _ => 0%nat, result_alloc k ("Angle"%string, 5%nat)) in
+  let dst := result_obj k st 0%nat in
+  table_ok imul_table no_carve = true /\ dst = 0%nat /\
+  nth_error (FrozenOps.run nat imul_table [({| meth := "__imul__"; recv := dst; args := [] |}, fun _ => 7%nat, [])] st') 0%nat = Some ("Angle"%string, 7%nat).
+Proof. exact copy_alias_refuted. Qed.
 
 (** ------------------------------------------------------------------ (c) text *)
 
